@@ -155,7 +155,7 @@ impl Check for C18 {
         "fault_enumeration"
     }
     fn rule(&self) -> &'static str {
-        "case = configuration with 1-4 modes (identifier-like distinct names), lookaheads of both polarities (also nullable ones), ~9% with a token type shared by several patterns of a mode, classes and literals whose text needs escaping in a label (quote, backslash, newline, non-ASCII, braces), a random prefix, a target folder that is fresh or already holds larger files of an earlier export under the same names plus an unrelated file, or (~19%) the export of a near-identical scanner whose rendering has the same length, plus one injected fault out of {none, target folder missing, regular file in place of the folder, directory occupying the output file name of the last / of the first mode, over-long prefix}; oracle = without fault: Ok, the fresh target directory contains exactly the files <prefix>_<mode>.dot, each parses with a strict parser of the DOT subset, and by content: nodes = states (number leading the label), ` T<t>` exactly on accepting non-start states with t their token type, multiset of edges (source state, trailing (C#id), target state) = multiset of transitions of the feature-gated dump, exactly one cluster per lookahead labelled with T<t> and Pos/Neg containing the lookahead automaton under the same rules; with fault: Err and no panic; non-trivial = >= 2 modes or >= 1 lookahead together with a label needing an escape"
+        "case = configuration with 1-4 modes (identifier-like distinct names), lookaheads of both polarities (also nullable ones), ~9% with a token type shared by several patterns of a mode, classes and literals whose text needs escaping in a label (quote, backslash, newline, non-ASCII, braces), a random prefix, a target folder that is fresh or already holds larger files of an earlier export under the same names plus an unrelated file, or (~19%) the export of a near-identical scanner whose rendering has the same length, plus one injected fault out of {none, target folder missing, regular file in place of the folder, directory occupying the output file name of the last / of the first mode, over-long prefix, prefix that is an absolute path into another folder (nothing may be written outside the target)}; oracle = without fault: Ok, the fresh target directory contains exactly the files <prefix>_<mode>.dot, each parses with a strict parser of the DOT subset, and by content: nodes = states (number leading the label), ` T<t>` exactly on accepting non-start states with t their token type, multiset of edges (source state, trailing (C#id), target state) = multiset of transitions of the feature-gated dump, exactly one cluster per lookahead labelled with T<t> and Pos/Neg containing the lookahead automaton under the same rules; with fault: Err and no panic; non-trivial = >= 2 modes or >= 1 lookahead together with a label needing an escape"
     }
     fn cases(&self, thorough: bool) -> usize {
         if thorough {
@@ -238,7 +238,7 @@ impl Check for C18 {
         for _ in 0..1 + d.below(8) {
             prefix.push(*d.pick(&pchars));
         }
-        let fault = *d.pick(&["none", "none", "none", "missing_folder", "file_as_folder", "dir_as_output", "dir_as_first_output", "long_prefix"]);
+        let fault = *d.pick(&["none", "none", "none", "missing_folder", "file_as_folder", "dir_as_output", "dir_as_first_output", "long_prefix", "absolute_prefix"]);
         Case {
             modes,
             extra: json!({"prefix": prefix, "fault": fault, "prefill": d.chance(80), "sibling_first": d.chance(48)}),
@@ -307,6 +307,14 @@ impl Check for C18 {
                     let first = case.modes.first().unwrap();
                     std::fs::create_dir_all(target.join(format!("{}_{}.dot", prefix, first.name)))?;
                 }
+                "absolute_prefix" => {
+                    // a prefix that is an absolute path into ANOTHER existing folder: whatever the
+                    // export does with it, nothing may be written outside the target folder
+                    std::fs::create_dir_all(&target)?;
+                    let other = dir.join("other");
+                    std::fs::create_dir_all(&other)?;
+                    use_prefix = format!("{}/esc", other.display());
+                }
                 "long_prefix" => {
                     std::fs::create_dir_all(&target)?;
                     use_prefix = "x".repeat(300);
@@ -369,6 +377,20 @@ impl Check for C18 {
                 }
                 Ok(x) => x,
             };
+            if fault == "absolute_prefix" {
+                st.count("faults_injected");
+                let escaped: Vec<String> = std::fs::read_dir(dir.join("other"))
+                    .map(|rd| rd.filter_map(|e| e.ok().map(|e| e.file_name().to_string_lossy().to_string())).collect())
+                    .unwrap_or_default();
+                if !escaped.is_empty() {
+                    return Err(Failure::new(
+                        "c18.escaped_target",
+                        "with a prefix that is an absolute path the export wrote files outside the target folder",
+                    )
+                    .exp_obs("no file outside the target folder", &escaped));
+                }
+                return Ok(st.clone());
+            }
             if fault != "none" {
                 st.count("faults_injected");
                 return match res {
